@@ -111,6 +111,12 @@ def _tree_form(ctx, case, spec):
         spec["pid"] = np.where(pid_old < 0, -1, new_of_old[np.maximum(pid_old, 0)]).astype(np.int32)
         ctx.count("tree_root_not_at_0")
     tree = G.build(spec, frozen_ok=True)
+    if case.get("derived") and not case.get("root_elsewhere"):
+        # what gets sorted is itself a tree the library derived from a used one (sorted already,
+        # re-rooted, or moved by a float64 matrix: double-precision coordinate columns)
+        tree, spec = G.derive(tree, spec, int(case["derived"]), float64_ok=True)
+        if any(v.dtype == np.float64 for v in tree.ndata.values()):
+            ctx.count("trees_with_float64_coordinates_sorted")
     before = {k: v.copy() for k, v in tree.ndata.items()}
     out = sort_tree(tree)
     ctx.count("tree_form_checked")
@@ -333,6 +339,8 @@ def run(ctx):
                 if form == "tree":
                     case.update(ids="plain", order="asis", xcol="none",
                                 root_elsewhere=bool(rng.random() < 0.35))
+                    if rng.random() < 0.3:
+                        case["derived"] = int(rng.integers(1, 2**31 - 1))
                 ctx.case(case, nontrivial=nontrivial, klass=f"{form}/{rc['shape']}")
                 execute(ctx, case)
         # one deep chain per shard (stack discipline on deep inputs)
